@@ -291,7 +291,8 @@ contract(
     params={"hash_list": "MHLHashList"},
     returns="Element",
     requires=[f"{PI}.process is not None", "hash_list.file_path is not None"],
-    modifies=["*.path"],
+    # the only write to existing objects: a root hash recorded with path '.' gets the root path of the manifest
+    modifies=["hash_list.process_info.root_media_hash.path"],
     ensures=[
         "fresh(result) and result.tag == 'processinfo'",
         f"{RC}[0].tag == 'process' and {RC}[0].text == {PI}.process.process_type",
@@ -305,4 +306,59 @@ contract(
         f" for j in range(len({PI}.ignore_spec._ignore_list)))",
     ],
     props=["C10", "C11", "C12"],
+)
+
+# ---- the manifest body (C10, C11, C02): header, creator info, process info, one element per record in record order inside
+# <hashes> (never an empty <hashes>), one reference per referenced generation inside <references>, closing tag
+MHS = "hash_list.media_hashes"
+REFS = "hash_list.referenced_hash_lists"
+NW = "len(file.written)"
+REC = (
+    "file.written[2 + j].tag == ('directoryhash' if {M}[j].is_directory else 'hash')"
+    " and file.written[2 + j].children[0].tag == 'path' and file.written[2 + j].children[0].text == as_posix({M}[j].path)"
+)
+contract(
+    "ascmhl.hashlist_xml_parser._write_hash_list_to_file",
+    slices=4,
+    params={"hash_list": "MHLHashList", "file_path": "str", "file": "File"},
+    requires=[
+        "len(file.written) == 0 and len(file.raw) == 0",
+        f"{CI} is not None and {CI}.tool is not None and {CI}.creation_date is not None and {CI}.host_name is not None",
+        f"{CI}.tool.name is not None and {CI}.tool.version is not None",
+        f"{PI}.process is not None",
+        f"all(m.path is not None for m in {MHS})",
+        f"all(r.file_path is not None for r in {REFS})",
+        # the root hash is not one of the records (it is a separate object of the process info)
+        f"{PI}.root_media_hash is None or all(m != {PI}.root_media_hash for m in {MHS})",
+    ],
+    modifies=["file.written", "file.raw", "hash_list.file_path", "hash_list.process_info.root_media_hash.path"],
+    logs=True,
+    ensures=[
+        "hash_list.file_path == file_path",
+        f"{NW} == 2 + len({MHS}) + len({REFS})",
+        "file.written[0].tag == 'creatorinfo' and file.written[1].tag == 'processinfo'",
+        "all(" + REC.format(M=MHS) + f" for j in range(len({MHS})))",
+        f"all(file.written[k].tag == 'hashlistreference' for k in range(2 + len({MHS}), len(file.written)))",
+        # the wrappers: <hashes> only around at least one record, <references> only around at least one reference
+        f"len(file.raw) == 2 + (2 if len({MHS}) > 0 else 0) + (2 if len({REFS}) > 0 else 0)",
+        f"len({MHS}) == 0 or (file.raw[1] == '<hashes>\\n' and file.raw[2] == '</hashes>\\n')",
+        "file.raw[len(file.raw) - 1] == '</hashlist>\\n'",
+    ],
+    loops={
+        0: Loop(invariant=[
+            f"{NW} == 2 + _i and len(file.raw) == 2 and file.raw[1] == '<hashes>\\n'",
+            "file.written[0].tag == 'creatorinfo' and file.written[1].tag == 'processinfo'",
+            "all(" + REC.format(M="_seq") + " for j in range(_i))",
+            f"_seq == {MHS} and hash_list.file_path == file_path",
+        ]),
+        1: Loop(invariant=[
+            f"{NW} == 2 + len({MHS}) + _i and len(file.raw) == 2 + (2 if len({MHS}) > 0 else 0)",
+            f"len({MHS}) == 0 or (file.raw[1] == '<hashes>\\n' and file.raw[2] == '</hashes>\\n')",
+            "file.written[0].tag == 'creatorinfo' and file.written[1].tag == 'processinfo'",
+            "all(" + REC.format(M=MHS) + f" for j in range(len({MHS})))",
+            f"all(file.written[k].tag == 'hashlistreference' for k in range(2 + len({MHS}), len(file.written)))",
+            f"_seq == {REFS} and hash_list.file_path == file_path",
+        ]),
+    },
+    props=["C10", "C11", "C02"],
 )
